@@ -47,11 +47,12 @@ func Expect(cfg Cfg, t *T, opt string, v V, forced bool) V {
 		if v.Nil {
 			return V{Nil: true}
 		}
-		if ClassOf(cfg, t.Elem, opt) == CR && len(v.E[0].E) == 0 {
+		e := Expect(cfg, t.Elem, opt, v.E[0], true)
+		if ClassOf(cfg, t.Elem, opt) == CR && t.Elem.K != KPtr && e.Nil {
 			// pointer to an empty protobuf repeated field: nothing is written at all
 			return V{Nil: true}
 		}
-		return V{E: []V{Expect(cfg, t.Elem, opt, v.E[0], true)}}
+		return V{E: []V{e}}
 	case KSlice:
 		cl := ClassOf(cfg, t, opt)
 		var out []V
